@@ -74,7 +74,8 @@ FieldOrder == <<"lower", "upper", "summand", "summation_variable">>
           pole |-> [on, at]      the text also contains  0/(n - at) : undefined where n = at
           sigma, shift           the text is written in the index m with  n = sigma*m + shift
           scale (rational), add (Gaussian, added to every component),
-          v |-> the name the text uses for its index ] *)
+          v |-> the name the text uses for its index,
+          calls |-> sequence of function names the text also mentions, each through a factor equal to 1 (cos(0)*...) ] *)
 PolyAt(p, n) == p[1] + p[2] * n + p[3] * n * n
 BaseAt(b, n) == CASE b = "poly" -> One
                   [] b = "alt" -> (IF n % 2 = 0 THEN One ELSE <<-1, 1>>)
@@ -93,10 +94,13 @@ UsesIndex(b) == b.pole.on \/ \E t \in Terms(b) : t.base # "poly" \/ t.p[2] # 0 \
 UsesC(b) == \E t \in Terms(b) : t.mult = "c"
 UsesFact(b) == \E t \in Terms(b) : t.base = "invfact"
 Dim(b) == Len(b.comps)
+SeqSet(q) == {q[i] : i \in 1..Len(q)}
 
 (* ------------------------------------------------------------------ limits
    [k |-> "int" | "plusx" | "plusc" | "half" | "cplx" | "pinf" | "ninf" | "blank" | "qbelow" | "qabove", n |-> integer]
    int: n   plusx: n + x   plusc: n + c   half: n + 1/2   cplx: n + i   pinf/ninf: +-infty
+   fn (with a third field f): the integer n written with a call of the function f (cos(0)+2, abs(-3), first(4)): its
+   value is n wherever f is defined; the call counts as a use of f.
    qbelow / qabove: the integer n written as a quotient or product of decimal numbers that is not exact in binary
    floating point (0.3/0.1, 2.1/0.7, ...): mathematically the limit IS the integer n, numerically it lands a rounding
    error below / above n.  Two readings are allowed for such a limit, and only these: it is the integer n (exact
@@ -108,7 +112,7 @@ LimVal(l, env, role) ==
     [] l.k = "plusx" -> (LET q == QAdd(env.x, QInt(l.n)) IN IF q[2] = 1 THEN [t |-> "int", v |-> q[1]] ELSE [t |-> "nonint"])
     [] l.k = "plusc" -> (IF role = "student" THEN [t |-> "ivar"]
                          ELSE LET q == QAdd(env.c, QInt(l.n)) IN IF q[2] = 1 THEN [t |-> "int", v |-> q[1]] ELSE [t |-> "nonint"])
-    [] l.k \in InexactKinds -> [t |-> "int", v |-> l.n]
+    [] l.k \in InexactKinds \cup {"fn"} -> [t |-> "int", v |-> l.n]
     [] l.k = "half" -> [t |-> "nonint"]
     [] l.k = "cplx" -> [t |-> "complex"]
     [] l.k = "pinf" -> [t |-> "pinf"]
@@ -127,10 +131,20 @@ SumOf(body, idx, env) == FoldSet(LAMBDA m, acc : VAdd(acc, BodyAt(body, m, env))
 
 (* ------------------------------------------------------------------ one summation, one sample
    sum  [lower, upper (limits), body, var (name, "" = blank)]
-   cfg  [evenOdd, cut, cutFact, xs (samples of x), cval (value of c at every sample), vars, ivars, tol]
+   cfg  [evenOdd, cut, cutFact, xs (samples of x), cval (value of c at every sample), vars, ivars, tol,
+         userfuncs (names of author-defined functions), forbidden (functions a submission may not use: a blacklist, or
+         the complement of a whitelist), required (functions a correct submission must use), listing (how forbidden is
+         configured, "black" | "white": no influence on the outcome)]
    role "author" | "student": the instructor-only variables exist for the author only *)
 HasInexact(sum) == sum.lower.k \in InexactKinds \/ sum.upper.k \in InexactKinds
 Readings(sum) == IF HasInexact(sum) THEN {FALSE, TRUE} ELSE {FALSE}          \* strict?
+\* the functions a summation uses: those called in its two limits and in its summand -- of THIS summation, nothing else
+LimFuncs(l) == IF l.k = "fn" THEN {l.f} ELSE {}
+UsedFuncs(sum) == LimFuncs(sum.lower) \cup LimFuncs(sum.upper)
+                  \cup (IF sum.body.blank THEN {} ELSE SeqSet(sum.body.calls) \cup (IF UsesFact(sum.body) THEN {"fact"} ELSE {}))
+DefinedFuncs(cfg) == KnownFunctions \cup cfg.userfuncs
+\* a submission that may not be accepted as it stands, whatever its value
+Restricted(stu, cfg) == UsedFuncs(stu) \cap (cfg.forbidden \ cfg.userfuncs) # {} \/ ~(cfg.required \subseteq UsedFuncs(stu))
 CutFor(sum, cfg) == IF UsesFact(sum.body) THEN cfg.cutFact ELSE cfg.cut
 IfSet(cond, name) == IF cond THEN {name} ELSE {}
 
@@ -145,6 +159,7 @@ Faults(sum, cfg, env, role, strict) ==
      \cup IfSet(lo.t = "complex" \/ hi.t = "complex", "complex_limit")
      \cup IfSet(lo.t = "ivar" \/ hi.t = "ivar" \/ (~b.blank /\ role = "student" /\ UsesC(b)), "instructor_variable")
      \cup IfSet(~b.blank /\ UsesIndex(b) /\ b.v # sum.var, "unknown_variable")
+     \cup IfSet(~(UsedFuncs(sum) \subseteq DefinedFuncs(cfg)), "unknown_function")
      \cup IfSet(~b.blank /\ IsRange(lo) /\ IsRange(hi) /\ b.pole.on
                   /\ \E m \in Index(lo, hi, cfg.evenOdd, CutFor(sum, cfg)) : Inner(b, m) = b.pole.at, "division_by_zero")
 
@@ -161,7 +176,7 @@ Unspecified(sum, cfg, env, role) ==
      \/ ~b.blank /\ UsesIndex(b) /\ b.v # sum.var /\ b.v \in KnownConstants \cup KnownFunctions \cup cfg.vars \cup cfg.ivars
      \* a summand that is never evaluated: nothing is said about names it cannot use
      \/ ~b.blank /\ IsRange(lo) /\ IsRange(hi) /\ Index(lo, hi, cfg.evenOdd, cut) = {}
-          /\ ((UsesIndex(b) /\ b.v # sum.var) \/ (role = "student" /\ UsesC(b)))
+          /\ ((UsesIndex(b) /\ b.v # sum.var) \/ (role = "student" /\ UsesC(b)) \/ ~(SeqSet(b.calls) \subseteq DefinedFuncs(cfg)))
      \/ ~b.blank /\ IsRange(lo) /\ IsRange(hi) /\ UsesFact(b)
           /\ \E m \in Index(lo, hi, cfg.evenOdd, cut) : Inner(b, m) < 0 \/ Inner(b, m) > 12
 
@@ -203,7 +218,7 @@ Outcomes(sum, cfg, role, strict, s) ==
 RECURSIVE Withins(_, _, _, _)
 Withins(A, S, tol, s) == IF s > Len(A) THEN <<>> ELSE <<Within3(A[s].v, S[s].v, tol)>> \o Withins(A, S, tol, s + 1)
 
-Verdict(A, S, cfg, dim) ==
+Verdict(A, S, cfg, dim, restricted) ==
   LET n == Len(A)
       aFails == \E s \in 1..n : A[s].k = "error"
       sFails == \E s \in 1..n : S[s].k = "error"
@@ -214,13 +229,15 @@ Verdict(A, S, cfg, dim) ==
      \* an empty sum of vectors has no shape: silent when only the author's sum is empty
      ELSE IF dim > 1 /\ \E s \in 1..n : A[s].terms = 0 /\ S[s].terms > 0 THEN Classes
      ELSE LET W == Withins(A, S, cfg.tol, 1) IN
-          IF \A s \in 1..n : W[s] = "in" THEN {"correct"}
-          ELSE IF \E s \in 1..n : W[s] = "out" THEN {"incorrect"}
-          ELSE {"correct", "incorrect"}
+          \* equal in value: correct -- unless the submission uses a function it may not use or lacks a required one,
+          \* which is refused with a student-facing error (nothing is said about refusing it when the value is wrong)
+          IF \A s \in 1..n : W[s] = "in" THEN (IF restricted THEN {"student_err"} ELSE {"correct"})
+          ELSE IF \E s \in 1..n : W[s] = "out" THEN (IF restricted THEN {"incorrect", "student_err"} ELSE {"incorrect"})
+          ELSE (IF restricted THEN {"incorrect", "student_err"} ELSE {"correct", "incorrect"})
 
 \* every combination of readings of inexactly written integer limits (one reading per summation) is allowed
 Grade(aut, stu, cfg) ==
-  UNION {Verdict(Outcomes(aut, cfg, "author", ra, 1), Outcomes(stu, cfg, "student", rs, 1), cfg, Dim(aut.body)) :
+  UNION {Verdict(Outcomes(aut, cfg, "author", ra, 1), Outcomes(stu, cfg, "student", rs, 1), cfg, Dim(aut.body), Restricted(stu, cfg)) :
            ra \in Readings(aut), rs \in Readings(stu)}
 \* the same summation with its inexactly written limits written as plain integers
 ExactLim(l) == IF l.k \in InexactKinds THEN [l EXCEPT !.k = "int"] ELSE l
